@@ -270,10 +270,14 @@ func TestLen(t *testing.T) {
 			rootBegin, rootEnd = strings.Index(c.S, "["), strings.LastIndex(c.S, "]")
 		}
 		// negative half: a shortcut cut off at the end of the input, a text of blanks only
-		if neg := rapid.IntRange(0, 39).Draw(t, "negativeScalar"); neg < 2 {
+		if neg := rapid.IntRange(0, 39).Draw(t, "negativeScalar"); neg < 3 {
 			nc := Case{Kind: "schema", S: rapid.SampledFrom([]string{"@", "@a |", "@a|", "@a | @", "@a |\t", " @a | @b |"}).Draw(t, "cutShortcut"), Cut: true}
 			if neg == 1 {
 				nc = Case{Kind: "json", S: rapid.SampledFrom([]string{"", " ", "\n", " \r\n\t", "\t\t"}).Draw(t, "blankText"), Cut: true}
+			}
+			if neg == 2 {
+				// an enum rule text that holds comments (or blanks) only: no value list begins
+				nc = Case{Kind: "enum", S: rapid.SampledFrom([]string{"// [1, 2]", "/* [1, 2] */", " /* a */ // b", "// a\n// b\n\n", "/* left open", "//", "/**/", " ", "\n", "// c\n"}).Draw(t, "commentsOnly"), Cut: true}
 			}
 			check(t, nc)
 			run.Eval(chk, true, nc.Kind, nc.S, "cut")
